@@ -94,22 +94,8 @@ func (p *Program) desc(v ssa.Value, fr *Frame, d int) string {
 		return p.desc(x.X, fr, d+1)
 	case *ssa.Call:
 		name := CalleeName(x)
-		if p.inline {
-			if f := StaticFn(x); f != nil && p.IsHelios(f) && f.Signature.Recv() == nil && f.Blocks != nil && d < 6 {
-				var rets []*ssa.Return
-				instrsOf(f, func(in ssa.Instruction) {
-					if r, ok := in.(*ssa.Return); ok {
-						rets = append(rets, r)
-					}
-				})
-				if len(rets) == 1 && len(rets[0].Results) == 1 {
-					sub := &Frame{Fn: f, Site: x, Parent: fr, Args: x.Call.Args}
-					if fr != nil {
-						sub.Depth = fr.Depth + 1
-					}
-					return p.desc(rets[0].Results[0], sub, d+1)
-				}
-			}
+		if v, sub := p.inlineTarget(x, fr); v != nil && d < 6 {
+			return p.desc(v, sub, d+1)
 		}
 		var args []string
 		for _, a := range x.Call.Args {
@@ -177,6 +163,49 @@ func (p *Program) desc(v ssa.Value, fr *Frame, d int) string {
 		return "makemap"
 	}
 	return fmt.Sprintf("%T", v)
+}
+
+// noInline: helpers the rules refer to by name; their calls stay visible in descriptors.
+var noInline = map[string]bool{
+	"shouldCompress": true, "containsGzip": true, "matchesContentType": true, "GetActiveConnections": true, "healthy": true,
+	"IsBackendHealthy": true, "GetClientIP": true, "findHealthyBackend": true, "parseByteLimit": true, "parseGzipConfig": true,
+	"configInt": true, "generateIdentifier": true, "RequestHeaderName": true, "TraceHeaderName": true, "RequestContextMiddleware": true,
+	"NextBackend": true, "GetBackends": true, "IsAllowed": true, "NewIPFilter": true, "parseCIDR": true, "BuildChain": true,
+	"LoadConfig": true, "Validate": true, "NewLoadBalancer": true, "buildHandler": true, "validateTLSFiles": true, "Middleware": true,
+	"performHealthCheck": true, "Counts": true, "Execute": true, "beforeRequest": true, "admit": true, "setState": true, "Allow": true,
+	"getOrCreateBucket": true, "jumpHash": true, "MetricsHandler": true, "GetMetrics": true, "NewMux": true, "L": true, "WithContext": true,
+}
+
+// inlineTarget: x is a call of a small Helios helper with a single return statement and a single
+// result; the result expression and the frame to resolve its parameters in are returned, so that
+// provenance descriptors and guard relations see through helper extraction.
+func (p *Program) inlineTarget(x *ssa.Call, fr *Frame) (ssa.Value, *Frame) {
+	f := StaticFn(x)
+	if f == nil || !p.IsHelios(f) || f.Blocks == nil || f.Parent() != nil || noInline[f.Name()] || strings.HasPrefix(f.Name(), "validate") {
+		return nil, nil
+	}
+	if f.Signature.Results().Len() != 1 {
+		return nil, nil
+	}
+	var ret *ssa.Return
+	n := 0
+	instrsOf(f, func(in ssa.Instruction) {
+		if r, ok := in.(*ssa.Return); ok {
+			ret = r
+			n++
+		}
+	})
+	if n != 1 || len(ret.Results) != 1 {
+		return nil, nil
+	}
+	sub := &Frame{Fn: f, Site: x, Parent: fr, Args: x.Call.Args}
+	if fr != nil {
+		sub.Depth = fr.Depth + 1
+	}
+	if sub.Depth > 6 {
+		return nil, nil
+	}
+	return ret.Results[0], sub
 }
 
 // cellDesc describes the contents of a local variable cell: the single value stored into it, or
@@ -392,6 +421,9 @@ func (p *Program) RelOf(cond ssa.Value, pol bool, fr *Frame) Rel {
 			return r
 		}
 	case *ssa.Call:
+		if v, sub := p.inlineTarget(c, fr); v != nil {
+			return p.RelOf(v, pol, sub)
+		}
 		name := CalleeName(c)
 		args := c.Call.Args
 		switch name {
